@@ -68,7 +68,7 @@ static SPECS: &[PropertySpec] = &[
         scenario: props::c03::scenario,
         level: "exploration",
         rule: "method x status x Content-Length field list (0..3 copies; equal/different; valid, negative, empty, non-numeric, >2^64, '+n', list-valued) x Transfer-Encoding list (absent, chunked in any case, 'identity, chunked', split over two fields; next to chunked also a well-formed Content-Length of another size: half, zero, larger) x trailing bytes x peer closes|stays silent x segmentation x bytes()/read(); expected outcome from the RFC 9112 6.3 decision table (empty without waiting / payload / must fail / not decided); distinct = (method, status, CL shape, TE, end, expectation, reader, segmentation class); non-trivial = the table decides the combination",
-        quick_runs: 40000,
+        quick_runs: 200000,
         matrix_cells: 0,
         thorough_runs: 50_000_000,
         real_components: REAL,
@@ -80,7 +80,7 @@ static SPECS: &[PropertySpec] = &[
         scenario: props::c04::scenario,
         level: "exploration",
         rule: "generated heads: status 100..999, any reason phrase / version token, 0..max_headers+1 fields (max_headers itself drawn: 0, 1, small, medium, default; exactly-at-limit and limit+1 targeted), names over the token alphabet in random case with duplicates, values over VCHAR/SP/HTAB/obs-text/empty with surrounding spaces and bare-LF continuations, heads larger than the 8 KiB buffer, single lines up to 15 KB; every segmentation class applied to the head; one run in twelve: the caller announces Expect: 100-continue and the peer answers the request head with an interim 100 head followed by the final head under every segmentation (the reported head must be one of the two heads sent); distinct = (status class, version, field-count class, limit class, big, TE, segmentation, accessor); non-trivial = at least one field",
-        quick_runs: 30000,
+        quick_runs: 60000,
         matrix_cells: 0,
         thorough_runs: 50_000_000,
         real_components: REAL,
@@ -92,7 +92,7 @@ static SPECS: &[PropertySpec] = &[
         scenario: props::c05::scenario,
         level: "exploration",
         rule: "three generators feeding the response read path: (a) strings of up to 14 items over {digits, hex letters, ';', ':', SP, CR, LF, '+', '-', other, CRLF, status line} as the whole response or as a chunked body; (b) 1..4 mutations (bit flip, deletion, duplication, numeric blow-up to 2^31/2^32/2^63/2^64-1/2^64, splice, truncation) of a valid response; (c) 'endless' streams (0.5-2 MiB) for a status line without end, a header line without end, header fields without end (distinct names, one name repeated, names that are not tokens), bare-LF continuation without end, a chunk-size line without end, and a gzip bomb; random segmentation, FIN/RST/stall endings, EINTR, 0..4 re-reads after errors; oracles: no panic, termination (event cap, deadlock detection, real-time hang monitor), bounded bytes pulled from the transport per construct, allocation monitor (largest request, peak live, hard cap 1 GiB); distinct = (generator kind, method, ending, segmentation, reread, read size, eintr); every run non-trivial",
-        quick_runs: 12000,
+        quick_runs: 30000,
         matrix_cells: 0,
         thorough_runs: 50_000_000,
         real_components: REAL,
@@ -104,7 +104,7 @@ static SPECS: &[PropertySpec] = &[
         scenario: props::c06::scenario,
         level: "exploration",
         rule: "payload classes (empty, position-dependent text, random, framing look-alikes, highly repetitive, > 64 KiB) compressed by the harness with flate2 encoders at levels 0..9 (stored / fixed / dynamic blocks), gzip members with hand-written FEXTRA/FNAME/FCOMMENT headers; declared as Content-Encoding (any case, in a list) or as a transfer coding before chunked; unknown codings and no coding for the pass-through half; every framing, segmentation and read schedule of C01; damage family: truncation of the compressed stream at an offset class, single-bit flips in the gzip trailer; distinct = (coding, framing, level, label, damage, allow_compression, segmentation, plan shape); non-trivial = a coding is declared",
-        quick_runs: 25000,
+        quick_runs: 60000,
         matrix_cells: 0,
         thorough_runs: 50_000_000,
         real_components: REAL,
@@ -128,7 +128,7 @@ static SPECS: &[PropertySpec] = &[
         scenario: props::c08::scenario,
         level: "exploration",
         rule: "URLs: http/https x domain (also upper-case) / IPv4 / IPv6 host x default (implicit or explicit) / non-default port x empty/plain/percent-encoded/non-ASCII path x query forms x fragment x userinfo; world: no proxy / http proxy / https proxy (with or without proxy credentials), giving direct, forward-proxy (absolute-form, also inside TLS to an https proxy) and CONNECT-tunnel routes with TLS peers so that the inner request is observed in clear; one proxied run in eight: the selected proxy refuses the connection (the request fails, nothing else is dialled); observed: address handed to connect, request target, Host; distinct = (route, host form, port class, path/query/fragment/userinfo classes, proxy credentials); all runs non-trivial",
-        quick_runs: 10000,
+        quick_runs: 20000,
         matrix_cells: 0,
         thorough_runs: 50_000_000,
         real_components: TLS_REAL,
@@ -140,7 +140,7 @@ static SPECS: &[PropertySpec] = &[
         scenario: props::c09::scenario,
         level: "exploration",
         rule: "redirect graphs over 3 hosts x 2 ports: chains of length 0..max+2 and cycles over followed statuses 301/302/303/307/308 with Location forms absolute, scheme-relative, absolute-path, relative-path with dot segments, query-only, with fragment, fragment-only, empty, upper-case scheme/host; terminals 2xx/4xx/5xx, unfollowed 3xx (300/304/305/306/399), missing / unparsable / non-http Location (also with ports where a server listens: ftp://host:8080, ws://, gopher://host:80, wss://); max_redirections 0..6, default or at a numeric extreme; follow on/off; the two settings made by drawn setter programs (either order, overwritten values, on the session or the request, request overriding session); no connection attempt outside the reference chain; the recorded connection history is compared with a reference interpreter whose hop URLs come from an independent RFC 3986 section 5.2 resolver; distinct = (form list, statuses, max, follow); non-trivial = at least one hop",
-        quick_runs: 30000,
+        quick_runs: 300000,
         matrix_cells: 0,
         thorough_runs: 50_000_000,
         real_components: REAL,
@@ -164,7 +164,7 @@ static SPECS: &[PropertySpec] = &[
         scenario: props::c11::scenario,
         level: "exploration",
         rule: "configuration sampling (no schedule or fault in this property - stated plainly): hosts over a small label alphabet so that equal / subdomain / same-suffix / superstring relations occur, IPv4/IPv6 literals; no-proxy entries derived from the host (equal, upper-case, parent domain, first characters dropped, TLD only, prefixed, empty); builder API and the simulated environment (8 variables over unset/empty/blank/http/https/socks/garbage, NO_PROXY lists with blanks and leading dots, '*'); observed on for_url() and on the peer send() dials; distinct = configuration shape; every run non-trivial",
-        quick_runs: 100000,
+        quick_runs: 1000000,
         matrix_cells: 0,
         thorough_runs: 50_000_000,
         real_components: REAL,
@@ -176,7 +176,7 @@ static SPECS: &[PropertySpec] = &[
         scenario: props::c12::scenario,
         level: "exploration",
         rule: "https URL (domain / IPv4 / IPv6 origin, default or explicit port) behind an http or https proxy whose URL has no / user-only / user:password credentials; the proxy's CONNECT reply is drawn: status 100..599, head valid / truncated at any offset / garbage, refusal body empty .. 10 KiB+-1 .. 'endless', delayed 0..40 ms, under segmentation, ending with FIN / RST / silence; the request carries Authorization, a marker header and a marker body; name-confusion variant (proxy named like the only name on the origin's certificate); oracles over the recorded write/deliver order of the proxy connection, the proxy's plaintext log, the TLS peers' logs and ErrorKind::ConnectError; distinct = (proxy kind, reply class, origin form, port, credentials, ending, body class, certificate, segmentation); all runs non-trivial",
-        quick_runs: 8000,
+        quick_runs: 16000,
         matrix_cells: 0,
         thorough_runs: 50_000_000,
         real_components: TLS_REAL,
@@ -212,7 +212,7 @@ static SPECS: &[PropertySpec] = &[
         scenario: props::c15::scenario,
         level: "exploration",
         rule: "forms with 0..6 text fields and 0..5 files; data over all byte values incl. CR, LF, dashes and look-alike delimiter lines; part sizes 0 .. >64 KiB drawn so that part boundaries cover the residues of the 8 KiB copy buffer; names/filenames over printable characters; valid MIME strings; transfer under short writes / EINTR / slow peer; the de-chunked body is decoded by an independent multipart decoder with the boundary from Content-Type; distinct = (field counts, size residue class, fault class, filename/mime counts); non-trivial = at least one field",
-        quick_runs: 10000,
+        quick_runs: 30000,
         matrix_cells: 0,
         thorough_runs: 50_000_000,
         real_components: REAL,
@@ -224,7 +224,7 @@ static SPECS: &[PropertySpec] = &[
         scenario: props::c16::scenario,
         level: "exploration",
         rule: "operation histories of 3..25 ops over {new session, clone session, session setters (max_headers, max_redirections, follow_redirects, connect/read/overall timeout, proxy, default charset, compression, header set/append with colliding names incl. Accept and User-Agent), builder from session, standalone builder, builder setters, prepare, send (a prepared request may be sent twice)} executed by 1..3 simulated caller threads interleaved op by op by the seeded scheduler; reference model = records copied at clone/creation, updated in actual execution order; every send is observed behaviourally: header fields and Accept-Encoding on the wire, number of hops against a 8-redirect chain, header limit, peer dialled (proxy or origin), decoded text (default charset), and connect/read/overall timeouts as the exact simulated instant at which a black-holed connect / silent peer is given up; distinct = op-kind string x thread count x schedule signature; non-trivial = at least one send",
-        quick_runs: 15000,
+        quick_runs: 40000,
         matrix_cells: 0,
         thorough_runs: 50_000_000,
         real_components: REAL,
@@ -236,7 +236,7 @@ static SPECS: &[PropertySpec] = &[
         scenario: props::c17::scenario,
         level: "exploration",
         rule: "resolver output: 0..3 IPv6 and 0..3 IPv4 addresses in a drawn interleaving; each address accepts / refuses after a latency around 0, just below/above the 200 ms race interval and around the connect timeout, or black-holes; connect timeout and overall deadline (none, zero, shorter than the race, long) drawn; one run in eight: a second connection inside the same send() after a redirect to the same host, with the address that answered the first hop gone (black hole / refusing) - order again and an accepting address reached within position x 200 ms + its latency; racing threads interleaved by the seeded scheduler; distinct = (address behaviour list, connect timeout, deadline) x schedule signature; non-trivial = at least two addresses (the racing path)",
-        quick_runs: 15000,
+        quick_runs: 30000,
         matrix_cells: 0,
         thorough_runs: 50_000_000,
         real_components: REAL,
@@ -248,7 +248,7 @@ static SPECS: &[PropertySpec] = &[
         scenario: props::c18::scenario,
         level: "exploration",
         rule: "bodies: text in 8 scripts re-encoded into each of the 38 exported charsets, truncated and damaged multi-byte sequences, random bytes, BOM-prefixed bodies (split-independence half only); Content-Type absent / without charset / with a known label in upper, lower or mixed case with or without the blank / unknown or empty label; default charset set or not; text, text_with, text_utf8, text_reader, text_reader_with with read sizes 1 B .. 9 KB; every framing, chunking and segmentation of C01; expected = one-shot encoding_rs decode of the whole payload with the charset chosen by the stated precedence; distinct = (API, body kind, header class, default, selected charset, plan shape); non-trivial = several delivery segments or a streaming reader",
-        quick_runs: 20000,
+        quick_runs: 100000,
         matrix_cells: 0,
         thorough_runs: 50_000_000,
         real_components: REAL,
